@@ -301,7 +301,8 @@ type KBNode struct {
 	mu       sync.Mutex
 	ctl      map[int64]*kbThread // by goroutine id
 	cd       coder.Coder
-	Dead     bool // a case stalled: the node is not reused
+	Dead     bool   // a case stalled: the node is not reused
+	Panic    string // a request panicked (recovered by the harness): the node is not reused
 	mainGoid int64
 	// the retry goroutine, adopted as a logical thread while a case with an uncertain write runs
 	adoptRetry    bool
@@ -469,6 +470,15 @@ func (n *KBNode) WaitRev(rev uint64, d time.Duration) bool {
 func (n *KBNode) Do(q KReq, key []byte) (r KResp) {
 	ctx := context.Background()
 	r.Op = q.Op
+	defer func() {
+		if p := recover(); p != nil {
+			r = KResp{Op: q.Op, Err: true}
+			n.mu.Lock()
+			n.Panic = fmt.Sprintf("panic in %v: %v", q.JSON(), p)
+			n.Dead = true
+			n.mu.Unlock()
+		}
+	}()
 	switch q.Op {
 	case OpCreate:
 		resp, err := n.B.Create(ctx, &proto.CreateRequest{Key: key, Value: q.Val})
@@ -579,6 +589,9 @@ type KBSpec struct {
 
 func (n *KBNode) seqCall(q KReq, key []byte) (KResp, error) {
 	r := n.Do(q, key)
+	if pm := n.panicMsg(); pm != "" {
+		return r, fmt.Errorf("%s", pm)
+	}
 	if r.Err {
 		return r, fmt.Errorf("initial %v failed", q.JSON())
 	}
@@ -863,6 +876,10 @@ func (n *KBNode) RunCase(spec KBSpec) (*KCase, error) {
 			runErr = fmt.Errorf("thread %d panicked: %v", t, ctls[t].panicked)
 			break
 		}
+		if pm := n.panicMsg(); pm != "" {
+			runErr = fmt.Errorf("%s", pm)
+			break
+		}
 	}
 	if runErr != nil {
 		// let parked threads go so that nothing is left behind
@@ -912,6 +929,9 @@ func (n *KBNode) RunCase(spec KBSpec) (*KCase, error) {
 	}
 	if !c.Stalled {
 		n.probe(c, nkeys)
+	}
+	if pm := n.panicMsg(); pm != "" {
+		return c, fmt.Errorf("%s", pm)
 	}
 	if c.Stalled {
 		n.Dead = true
@@ -1170,4 +1190,10 @@ func (n *KBNode) probe(c *KCase, nkeys int) {
 	if !n.WaitRev(last, 2*time.Second) {
 		n.Dead = true
 	}
+}
+
+func (n *KBNode) panicMsg() string {
+	n.mu.Lock()
+	defer n.mu.Unlock()
+	return n.Panic
 }
